@@ -38,6 +38,8 @@ ASSUMPTIONS = [
     "an exception from create_candidate_clusters is not judged here (C05); the case / history stops there",
     "create_candidate_clusters is only called when no candidate clusters exist and create_regions only when no regions "
     "exist (the only way the callers use them)",
+    "add_region is exercised with the regions of the components in a different order and with a duplicate of an existing "
+    "region; refusing the duplicate with ValueError is the contract ('regions cannot overlap')",
 ]
 
 PRODUCTS = ["pa", "pb", "pc"]
@@ -347,15 +349,9 @@ def check_layout(spec: dict) -> dict:
         return {"nontrivial": False, "classes": [stop.label]}
 
 
-def _check_layout(spec: dict) -> dict:
-    length = spec["L"]
-    circular = spec["circular"]
-    record = make_record(length, circular)
-    wrap_point = length if circular else None
-
-    def info() -> dict:
-        return _area_snapshot(record, length, circular)
-
+def _build_areas(spec: dict, record, info) -> None:
+    """ puts the protoclusters, candidate clusters and subregions of the spec into the record """
+    wrap_point = spec["L"] if spec["circular"] else None
     have_protos = False
     pending_candidates = []
     for area in spec["areas"]:
@@ -379,6 +375,62 @@ def _check_layout(spec: dict) -> dict:
             record.create_candidate_clusters()
         except Exception as err:  # C05
             raise _Stop("excluded_candidate_creation_failed") from err
+
+
+def _check_manual_regions(spec: dict, turn: int) -> None:
+    """ the regions of the (already verified) components handed to add_region one by one in a different
+        order: ordered insertion, numbering, and refusal of a region overlapping an existing one """
+    from antismash.common.secmet.features import CandidateCluster, Region
+    length = spec["L"]
+    circular = spec["circular"]
+    record = make_record(length, circular)
+
+    def info() -> dict:
+        return dict(_area_snapshot(record, length, circular), op="add_region")
+
+    _build_areas(spec, record, info)
+    areas = list(record.get_candidate_clusters()) + list(record.get_subregions())
+    comps = _components([_loc(area) for area in areas])
+    shift = turn % len(comps)
+    order = comps[shift:] + comps[:shift]
+    if (turn // len(comps)) % 2:
+        order.reverse()
+
+    def make_region(comp: list):
+        members = [areas[i] for i in comp]
+        return Region([a for a in members if isinstance(a, CandidateCluster)],
+                      [a for a in members if not isinstance(a, CandidateCluster)])
+
+    for comp in order:
+        region = _run("add_region_total", lambda c=comp: make_region(c), info)
+        _run("add_region_total", lambda r=region: record.add_region(r), info)
+        _check_numbering(record, length)
+    _check_regions(record, length, circular, "add_region")
+    _check_links(record, {}, True)
+    before = record.get_regions()
+    duplicate = make_region(comps[-1])
+    try:
+        record.add_region(duplicate)
+    except ValueError:
+        pass
+    except Exception as err:  # pylint: disable=broad-except
+        raise Violation("overlapping_region_refused_oddly", dict(info(), exception=f"{type(err).__name__}: {err}"))
+    else:
+        raise Violation("overlapping_region_accepted", dict(info(), region=_plain(_loc(duplicate))))
+    now = record.get_regions()
+    if len(now) != len(before) or any(a is not b for a, b in zip(now, before)):
+        raise Violation("refused_region_changed_record", info())
+
+
+def _check_layout(spec: dict) -> dict:
+    length = spec["L"]
+    circular = spec["circular"]
+    record = make_record(length, circular)
+
+    def info() -> dict:
+        return _area_snapshot(record, length, circular)
+
+    _build_areas(spec, record, info)
 
     n_areas = len(record.get_candidate_clusters()) + len(record.get_subregions())
     returned = _run("region_creation_succeeds", record.create_regions, lambda: dict(info(), op="create_regions"))
@@ -415,7 +467,11 @@ def _check_layout(spec: dict) -> dict:
     _check_numbering(record, length)
     _check_links(record, {}, True)
 
+    if spec.get("manual") is not None:
+        _check_manual_regions(spec, spec["manual"])
+
     classes = ["circular" if circular else "linear", f"mode_{spec.get('mode', 'direct')}", f"after_{after}",
+               "manual_add_region" if spec.get("manual") is not None else "no_manual",
                f"areas_{min(n_areas, 10)}", f"components_{min(facts['components'], 6)}"]
     for key in ("crossing", "over_half", "chain"):
         if facts[key]:
@@ -803,7 +859,7 @@ def layout_specs(draw):
     areas = [draw(_area_spec(arc, length, mode)) for arc in arcs]
     order = draw(st.permutations(list(range(len(areas)))))
     return {"L": length, "circular": circular, "mode": mode, "areas": [areas[i] for i in order],
-            "after": draw(st.sampled_from(AFTER))}
+            "after": draw(st.sampled_from(AFTER)), "manual": draw(st.sampled_from([None, 0, 1, 2, 3, 5, 7]))}
 
 
 def all_arcs(length: int, circular: bool):
@@ -834,7 +890,8 @@ def enum_layouts(max_len_triples: int, max_len_quads: int):
                             else:
                                 areas.append({"t": "sub", "loc": loc})
                         yield {"L": length, "circular": circular, "mode": "direct", "areas": areas,
-                               "after": AFTER[number % len(AFTER)]}
+                               "after": AFTER[number % len(AFTER)],
+                               "manual": (number // 2) % 7 if number % 2 else None}
     return cases
 
 
